@@ -9,19 +9,20 @@ from engine.loader import AnalysisError
 from .ctxuse import attr_reads, single_defs, ctx_chain, print_sites
 
 META = {
-    'text': 'Static closed-use, arithmetic and dominance rules for the depth setting in the core printers: (a) depth_left is '
-            'used only in comparisons with 0, in the one decrement and as pass-along, and None is normalised to +inf '
-            'before the first context is built; (b) nested_call yields depth_left - 1 (canonical linear form) and every '
-            'print of a child in a core container printer (sequence elements, non-string dict keys, dict values, call '
-            'arguments and keyword arguments) uses a context whose derivation chain from the printer\'s own context '
-            'contains exactly one nested_call(), the documented exceptions (hugged sole argument, string dict keys) being '
-            'recognised by their guards; (c) every child print is dominated by the false branch of the printer\'s depth '
-            'test and the true branch returns a placeholder containing the ellipsis; (d) with depth_left > 0 every test has '
-            'the same outcome as with +inf. Leaf printers without a placeholder are outside the rule set.',
+    'text': 'The depth setting, decided on interpreted code: (a) closed-use classification of depth_left (comparisons with 0, the one '
+            'decrement, pass-along); the interpreted entry point hands the requested depth to the root context, None becomes '
+            '+inf, and an explicit None survives the configuration merge (imported C18.b); (b) the context class interpreted: '
+            'nested_call yields depth_left - 1 and keeps everything else, contexts are built from scratch only by the entry point; '
+            'the core container printers and the call builder are interpreted (E6) on native and subclass scenarios and every child '
+            'document on a path with depth left was printed under exactly one nested_call() (hugged sole argument and string dict keys '
+            'excepted, as documented); (c) for every interpreted path the tests on the remaining depth are evaluated at 0 and at 1: a '
+            'path taken with no depth left returns the ellipsis placeholder and prints nothing below, a path taken with one level left '
+            'prints its children (no early cut); the same for the leaf printers that have a placeholder (str, bytes, int, float); '
+            '(d) the wrapper model: the same container at two nesting levels is cut where it occurs, not where it was first printed.',
     'note': 'string dict keys are printed by the str printer with the dict\'s own context (source comment: "not a nested call '
-            'on purpose"); recorded as a note',
-    'technique': 'static analysis: closed-use classification, canonical linear forms, context-derivation chains by def-use, '
-                 'guard facts (dominance)',
+            'on purpose")',
+    'technique': 'static analysis: abstract interpretation of the printers, the call builder, the context class and the entry point; '
+                 'small-scope evaluation of the depth tests of each path; closed-use classification',
 }
 
 CONTAINER_KEYS = {'list', 'tuple', 'set', 'dict'}
@@ -45,6 +46,52 @@ def _depth_fact(f_, ctx):
         if op in ('!=', '<'):
             return 'left'
     return None
+
+
+def is_placeholder(t):
+    """a depth placeholder: the call T(...) with the ellipsis as its only argument, or brackets around the text '...'"""
+    from engine import docterm as D
+    if isinstance(t, D.Call):
+        if len(t.args) != 1 or t.kwargs:
+            return False
+        a0 = t.args[0]
+        if isinstance(a0, D.T):
+            return is_placeholder(a0) or D.show(a0).strip() == 'Ellipsis'
+        return 'Ellipsis' in str(a0)
+    found = []
+
+    def walk(x):
+        if isinstance(x, D.Text) and x.s == '...':
+            found.append(x)
+        for attr in ('items', 'child', 'broken', 'flat'):
+            v = getattr(x, attr, None)
+            if isinstance(v, list):
+                for y in v:
+                    if isinstance(y, D.T):
+                        walk(y)
+            elif isinstance(v, D.T):
+                walk(v)
+    walk(t)
+    return bool(found)
+
+
+def depth_feasible(facts, d):
+    """is the conjunction of the path's tests on the remaining depth satisfied when that depth is d?  (other tests are ignored);
+    None when a depth test cannot be evaluated"""
+    import re
+    for key, val in facts:
+        if 'depth_left' not in key:
+            continue
+        expr = re.sub(r'[\w\.\[\]]*depth_left(?:-(\d+))?', lambda m_: '(D-%s)' % (m_.group(1) or '0'), key)
+        if not re.fullmatch(r"[\sD\d\(\)\-\+<>=!]+", expr):
+            return None
+        try:
+            got = bool(eval(expr, {'__builtins__': {}}, {'D': d}))      # arithmetic comparison text produced by the interpreter itself
+        except Exception:
+            return None
+        if got != bool(val):
+            return False
+    return True
 
 
 def run(repo, rep):
@@ -92,53 +139,93 @@ def run(repo, rep):
     n = 0
     n += ctxmodel.report(repo, rep, 'C11.b', lambda k: 'depth_left' in k and not k.startswith('ctor:') or k.endswith(':returns-new-context'),
                          'one nesting level must cost exactly one unit of depth')
-    printers = {}
-    for r in facts.registry(repo):
-        if r.key in CONTAINER_KEYS and r.fn is not None and r.module is m:
-            printers[r.fn.key] = r.fn
-    pca = m.funcs.get('pretty_call_alt')
-    if pca is None:
-        raise AnalysisError('pretty_call_alt vanished')
-    targets = list(printers.values()) + [pca]
-    for f in sorted(targets, key=lambda x: x.key):
-        ctx = 'ctx'
-        value = f.params[0] if f is not pca else None
-        defs = single_defs(f.node)
-        g = Guards(f.node)
-        for call, val, ctxe, entry in print_sites(f.node):
-            if ctxe is None or val is None:
+    # children of the core container printers and of the call builder: read off the interpreted printers (E6).  On every path with
+    # depth left, every child document was printed under a context derived through exactly one nested_call(); on every path with the
+    # depth exhausted nothing below is printed and the placeholder shows the ellipsis (C11.c).  String dict keys go through the
+    # string printer with the dict's own context (documented exception, they show up as contextual documents, not as children).
+    from engine import docterm as D
+    from engine.interp import ValueV, Sym as _Sym, Undecided as _Undecided
+    from . import shape as S
+    nc = 0
+
+    def subs(t, out):
+        if isinstance(t, D.Sub):
+            out.append(t)
+        for attr in ('items', 'args', 'kwargs', 'child', 'broken', 'flat', 'left', 'right'):
+            v = getattr(t, attr, None)
+            if isinstance(v, list):
+                for x in v:
+                    for y in (x if isinstance(x, tuple) else (x,)):
+                        if isinstance(y, D.T):
+                            subs(y, out)
+            elif isinstance(v, D.T):
+                subs(v, out)
+        return out
+    itp = S.interp(repo, 'printer')
+    for base in ('list', 'tuple', 'set', 'frozenset', 'dict'):
+        for native in (True, False):
+            for k in (1, 2):
+                try:
+                    fn = S.printer_for(repo, base)
+                    v = ValueV('value', S.type_scenario(base, native), [_Sym('x%d' % i) for i in range(k)])
+                    res = S.run_printer(repo, itp, fn, v)
+                except (_Undecided, AnalysisError) as e:
+                    n += 1
+                    rep.undecided('C11.b', 'children[%s,%s,n=%d]' % (base, 'native' if native else 'subclass', k), m.relpath, str(e))
+                    continue
+                for pr, t, ph in res:
+                    if pr.raised is not None or t is None:
+                        continue
+                    lab = '%s[%s,%s,n=%d]' % (fn.name, base, 'native' if native else 'subclass', k)
+                    ch = subs(t, [])
+                    shown = D.show(t)
+                    if isinstance(t, D.Call) and t.via != 'build_fncall' and not ch and not any('depth_left' in key for key, _ in pr.facts):
+                        continue        # delegated to the call builder (pretty_call / pretty_call_alt): decided there (C17.b import below)
+                    at0, at1 = depth_feasible(pr.facts, 0), depth_feasible(pr.facts, 1)
+                    nc += 1
+                    if at0 is None or at1 is None:
+                        rep.undecided('C11.c', lab + ':depth-tests', fn.where, 'cannot evaluate the depth tests of the path (%s)' % pr.fact_text()[:100])
+                        continue
+                    placeholder = not ch and is_placeholder(t)
+                    if at0:
+                        rep.check(placeholder, 'C11.c', lab + ':placeholder', fn.where, 'with no depth left nothing below is printed; the placeholder shows the ellipsis',
+                                  '%s on a path taken when no depth is left (%s) returns %s: values below the cut are printed / no ellipsis placeholder'
+                                  % (fn.name, pr.fact_text()[:80] or 'no tests', shown[:100]), nontrivial=True)
+                    elif at1:
+                        rep.check(not placeholder, 'C11.c', lab + ':no-early-cut', fn.where, 'with one level left the children are printed',
+                                  '%s returns the placeholder %s on a path taken when one level of depth is left (%s): the cut comes a level too early'
+                                  % (fn.name, shown[:80], pr.fact_text()[:80]), nontrivial=True)
+                        bad = [(c.prov, c.ctx) for c in ch if not str(c.ctx).startswith('ctx+1:')]
+                        n += 1
+                        rep.check(not bad and bool(ch), 'C11.b', lab + ':children-one-level-deeper', fn.where, 'every child printed one level deeper',
+                                  '%s prints %s under contexts that are not exactly one nested_call() below its own (children found: %d): each container '
+                                  'must consume exactly one depth level' % (fn.name, bad or 'no child at all', len(ch)), nontrivial=True)
+    # leaf printers that have a placeholder (strings, numbers): the same cut
+    for base in ('str', 'bytes', 'int', 'float'):
+        try:
+            fn = S.printer_for(repo, base)
+            res = S.run_printer(repo, itp, fn, ValueV('value', S.type_scenario(base, True), None))
+        except (_Undecided, AnalysisError) as e:
+            nc += 1
+            rep.undecided('C11.c', 'leaf[%s]' % base, m.relpath, str(e))
+            continue
+        for pr, t, ph in res:
+            if pr.raised is not None or t is None:
                 continue
-            ch = ctx_chain(ctxe, defs)
-            label = '%s:child-print:%s(%s)' % (f.qualname, entry, src(val)[:30])
-            n += 1
-            if ch is None or ch[0] != ctx:
-                rep.undecided('C11.b', label, '%s:%d' % (f.module.relpath, call.lineno),
-                              'context expression %s is not a derivation chain of ctx' % src(ctxe))
-                continue
-            k = ch[1].count('nested_call')
-            other = [x for x in ch[1] if x not in ('nested_call', 'use_multiline_strategy', 'assoc')]
-            if other:
-                rep.undecided('C11.b', label, '%s:%d' % (f.module.relpath, call.lineno), 'unknown context method %s' % other)
-                continue
-            if k == 1:
-                rep.ok('C11.b', label, '%s:%d' % (f.module.relpath, call.lineno), 'child printed one level deeper', nontrivial=True)
-                continue
-            # documented exceptions
-            fs = g.of(call)
-            if k == 0 and entry == 'pretty_str' and any(ff.pol and ff.text.replace(' ', '') in (
-                    'isinstance(%s,(str,bytes))' % src(val), 'isinstance(%s,str)' % src(val)) for ff in fs):
-                rep.ok('C11.b', label, '%s:%d' % (f.module.relpath, call.lineno),
-                       'string dict key printed with the dict\'s own context (documented exception)')
-                rep.note('string dict keys do not consume a depth level (%s:%d, "not a nested call on purpose")' % (f.module.relpath, call.lineno))
-                continue
-            if k == 0 and f is pca and any(ff.pol and 'in (list, dict, tuple)' in ff.text for ff in fs) and \
-                    any(ff.pol and ff.text.replace(' ', '') == 'len(args)==1' for ff in fs):
-                rep.ok('C11.b', label, '%s:%d' % (f.module.relpath, call.lineno),
-                       'hugged sole list/dict/tuple argument does not consume a level (documented exception)')
-                continue
-            rep.fail('C11.b', label, '%s:%d' % (f.module.relpath, call.lineno),
-                     '%s prints the child %s with a context derived through %d nested_call() steps (%s); each container must '
-                     'consume exactly one depth level' % (f.name, src(val), k, src(ctxe)))
+            at0 = depth_feasible(pr.facts, 0)
+            if at0:
+                nc += 1
+                shown = D.show(t)
+                rep.check(is_placeholder(t), 'C11.c', '%s[%s]:placeholder' % (fn.name, base), fn.where, 'with no depth left the value is shown as T(...)',
+                          '%s on a path taken when no depth is left (%s) returns %s instead of the %s(...) placeholder'
+                          % (fn.name, pr.fact_text()[:60] or 'no tests', shown[:80], base), nontrivial=True)
+    rep.count(nc)
+    # the call builder: imported from C17.b (children of a call one level deeper, hugged sole argument excepted, F(...) at the cut)
+    from .common import import_instances
+    n += import_instances(repo, rep, 'C17', lambda i: i.rule == 'C17.b' and i.construct.endswith((':nested-context', ':hug-context')), 'C11.b',
+                          'arguments of a call must be printed exactly one level deeper')
+    nc += import_instances(repo, rep, 'C17', lambda i: i.rule == 'C17.b' and i.construct.endswith(':depth-placeholder'), 'C11.c',
+                           'a call at the cut must be shown as F(...)')
     n += ctxmodel.construction_sites(repo, rep, 'C11.b', 'the remaining depth must be derived level by level')
     rep.floor('C11.b', n, 9)
     # C11.d: the depth a container is cut at depends on where it occurs, not on where it was printed first (interpreted wrapper
@@ -146,62 +233,8 @@ def run(repo, rep):
     from . import wrapper_model
     rep.floor('C11.d', wrapper_model.run(repo, rep, 'C11'), 4)
 
-    # ---------------------------------------------------------------- C11.c
-    n = 0
-    need_test = {}
-    for r in facts.registry(repo):
-        if r.key in DEPTH_TEST_KEYS and r.fn is not None and r.module is m:
-            need_test[r.fn.key] = r.fn
-    need_test[pca.key] = pca
-    for f in sorted(need_test.values(), key=lambda x: x.key):
-        ctx = f.params[1] if f is not pca else f.params[0]
-        g = Guards(f.node)
-        tests = []
-        for node in ast.walk(f.node):
-            if isinstance(node, ast.If):
-                for at in _atoms(node.test):
-                    d = _depth_fact(at, ctx)
-                    if d:
-                        tests.append((node, d))
-        n += 1
-        rep.check(len(tests) >= 1, 'C11.c', '%s:has-depth-test' % f.qualname, f.where, 'printer tests the remaining depth',
-                  '%s never tests ctx.depth_left: values below the cut are printed in full' % f.name, nontrivial=True)
-        # placeholder returns: every return under 'exhausted' mentions the ellipsis
-        for r_ in ast.walk(f.node):
-            if isinstance(r_, ast.Return) and r_.value is not None:
-                fs = g.of(r_)
-                kinds = {_depth_fact(ff, ctx) for ff in fs} - {None}
-                if 'exhausted' in kinds:
-                    n += 1
-                    env = single_defs(f.node)
-                    txt = src(r_.value)
-                    closure = txt
-                    for nm in names_in(r_.value):
-                        for d in env.get(nm, []):
-                            closure += ' ' + src(d)
-                    okp = 'ELLIPSIS' in closure or '...' in closure or 'Ellipsis' in closure
-                    rep.check(okp, 'C11.c', '%s:placeholder-has-ellipsis@%s' % (f.qualname, _ret_label(r_, g, ctx)),
-                              '%s:%d' % (f.module.relpath, r_.lineno), 'placeholder shows the ellipsis',
-                              '%s returns %s when the depth is exhausted: no ellipsis placeholder' % (f.name, txt[:80]), nontrivial=True)
-                    rec = [c for c in ast.walk(r_.value) if isinstance(c, ast.Call) and call_name(c) in ('pretty_python_value', 'pretty_dispatch')]
-                    n += 1
-                    rep.check(not rec, 'C11.c', '%s:placeholder-no-recursion@%s' % (f.qualname, _ret_label(r_, g, ctx)),
-                              '%s:%d' % (f.module.relpath, r_.lineno), 'placeholder does not print children',
-                              '%s still prints children in its depth placeholder' % f.name)
-        # child prints dominated by 'left'
-        if f.key in printers or f is pca:
-            for call, val, ctxe, entry in print_sites(f.node):
-                if val is None:
-                    continue
-                fs = g.of(call)
-                kinds = [_depth_fact(ff, ctx) for ff in fs]
-                n += 1
-                rep.check('left' in kinds and 'exhausted' not in kinds, 'C11.c',
-                          '%s:child-print-above-cut:%s(%s)' % (f.qualname, entry, src(val)[:30]),
-                          '%s:%d' % (f.module.relpath, call.lineno), 'child printed only while depth is left',
-                          '%s prints the child %s on a path where the remaining depth was not tested to be positive (%s): '
-                          'recursion continues below the cut' % (f.name, src(val), [t for t in g.texts(call) if 'depth' in t] or 'no depth fact'),
-                          nontrivial=True)
+    # ---------------------------------------------------------------- C11.c (recorded above, together with C11.b)
+    n = nc
     rep.floor('C11.c', n, 25)
     rep.count(n + n2)
 
